@@ -421,10 +421,165 @@ theorem TrsoAux.sh_sumSafe_out (σ₀ : Val) {t t' : Expr} {r : List Var} (ct' :
   · simp only [clean_not_zero ct', Bool.false_eq_true, if_false, if_true]
     exact TrsoAux.sh_sumSimplify_out σ₀ (by intro n; simp) ot hs
 
+/-! ### the induction over `canon` -/
+
+theorem TrsoAux.sh_leaf_out (σ₀ : Val) (pop : Option Var) (c p : List Var) :
+    TrsoAux.sh_Out card leaf σ₀ (.prob pop c p) (.prob pop (sortByName c) (sortByName p)) := by
+  refine ⟨TrsoAux.sh_leaf σ₀ _ _ _, trivial, ?_⟩
+  intro c' s' hc
+  have hperm : (sortByName p).Perm p := TrsoAux.ssort_perm _ _
+  cases hp : sortByName p with
+  | nil =>
+    rw [hp] at hc hperm
+    have : p = [] := hperm.symm.eq_nil
+    subst this
+    simp only [chain, Option.some.injEq, Prod.mk.injEq] at hc
+    obtain ⟨rfl, rfl⟩ := hc
+    exact ⟨c, [], by simp [chain], by intro n; simp⟩
+  | cons x xs => rw [hp] at hc; simp [chain] at hc
+
+theorem TrsoAux.sh_prod_out (σ₀ : Val) (fs : List Expr) {es : List Expr} (hs : ∀ x ∈ es, Shape card leaf σ₀ x)
+    (hc : CleanList es) (hl : 2 ≤ es.length) :
+    (∃ gs, productSafe (flattenExprs es) = .prod gs) ∧
+      TrsoAux.sh_Out card leaf σ₀ (.prod fs) (productSafe (flattenExprs es)) := by
+  have hpw : PWList es := (pwList_iff es).2 (fun x hx => (hs x hx).pw)
+  have len := TrsoAux.sh_len_flattenExprs es hpw
+  obtain ⟨e1, e2⟩ := TrsoAux.sh_productSafe σ₀ (flattenExprs es) (TrsoAux.sh_flattenExprs σ₀ es hs)
+    ((cleanList_iff _).1 (cleanList_flattenExprs es hc)) (by omega)
+  rw [e1]
+  exact ⟨⟨_, rfl⟩, e2, trivial, by intro c' s' hc; simp [chain] at hc⟩
+
+theorem TrsoAux.sh_cons_step (σ₀ : Val) (e : Expr) {x' : Expr} {xs xs' : List Expr} (o : Shape card leaf σ₀ x')
+    (h : (∀ x ∈ xs', Shape card leaf σ₀ x) ∧ xs.length ≤ xs'.length) :
+    (∀ x ∈ x' :: xs', Shape card leaf σ₀ x) ∧ (e :: xs).length ≤ (x' :: xs').length := by
+  refine ⟨?_, by simp only [List.length_cons]; omega⟩
+  intro x hx
+  rcases List.mem_cons.1 hx with rfl | hx
+  · exact o
+  · exact h.1 x hx
+
+mutual
+theorem TrsoAux.sh_canon_aux (S : LeafSem card leaf) (σ₀ : Val) : ∀ (e e' : Expr), Good S e → SumND e →
+    Shape card leaf σ₀ e → canon e = .ok e' → TrsoAux.sh_Out card leaf σ₀ e e'
+  | .prob pop c p, e', _, _, _, h => by
+    simp [canon] at h; cases h
+    exact TrsoAux.sh_leaf_out σ₀ pop c p
+  | .prod fs, e', hg, hnd, hs, h => by
+    simp only [canon, bind, Except.bind] at h
+    split at h
+    · cases h
+    · rename_i es hes; cases h
+      obtain ⟨hl, hsf⟩ := (TrsoAux.sh_prod_iff σ₀ fs).1 hs
+      obtain ⟨h1, h2⟩ := TrsoAux.sh_canonFlat_aux S σ₀ fs es ⟨hg.1, hg.2⟩ hnd hsf hes
+      obtain ⟨es', hes', ces⟩ := canonFlat_ok fs hg.1
+      rw [hes] at hes'; cases hes'
+      exact (TrsoAux.sh_prod_out σ₀ fs h1 ces (by omega)).2
+  | .sum t r, e', hg, hnd, hs, h => by
+    simp only [canon, bind, Except.bind] at h
+    split at h
+    · cases h
+    · rename_i t' ht'; cases h
+      have gt : Good S t := ⟨hg.1, hg.2.1⟩
+      have gt' : Good S t' := good_canonicalize S gt ht'
+      exact TrsoAux.sh_sumSafe_out σ₀ gt'.1
+        (TrsoAux.sh_canon_aux S σ₀ t t' gt hnd.1 ((TrsoAux.sh_sum_iff σ₀ t r).1 hs).1 ht') hs
+  | .frac n d, e', hg, hnd, hs, h => by
+    simp only [canon, bind, Except.bind] at h
+    split at h
+    · cases h
+    · rename_i n' hn'
+      split at h
+      · cases h
+      · rename_i d' hd'
+        simp only [pure, Except.pure] at h
+        have gn : Good S n := ⟨hg.1.1, hg.2.1⟩
+        have gd : Good S d := ⟨hg.1.2, hg.2.2⟩
+        obtain ⟨sn, sd, hne⟩ := (TrsoAux.sh_frac_iff σ₀ n d).1 hs
+        have on := TrsoAux.sh_canon_aux S σ₀ n n' gn hnd.1 sn hn'
+        have od := TrsoAux.sh_canon_aux S σ₀ d d' gd hnd.2 sd hd'
+        split at h
+        · rename_i h1
+          rw [TrsoAux.sh_isOne od.shape.noOne] at h1; cases h1
+        · split at h
+          · rename_i hq
+            have heq := exprEq_sound n' d' hq
+            exact absurd (by
+              rw [← denL_canon S gn hnd.1 hn' σ₀, ← denL_canon S gd hnd.2 hd' σ₀, heq]) hne
+          · split at h
+            · cases h
+            · rename_i rv hrv
+              cases h
+              exact TrsoAux.sh_frac_out S σ₀ gn gd hnd.1 hnd.2 hn' hd' on od hne hrv
+  | .one, _, _, _, hs, _ => hs.noOne.elim
+  | .zero, _, hg, _, _, _ => hg.1.elim
+  | .q _ _, _, hg, _, _, _ => hg.1.elim
+theorem TrsoAux.sh_canonFlat_aux (S : LeafSem card leaf) (σ₀ : Val) : ∀ (fs es : List Expr), GoodList S fs →
+    SumNDList fs → (∀ x ∈ fs, Shape card leaf σ₀ x) → canonFlat fs = .ok es →
+    (∀ x ∈ es, Shape card leaf σ₀ x) ∧ fs.length ≤ es.length
+  | [], es, _, _, _, h => by simp [canonFlat] at h; cases h; simp
+  | .prod gs :: xs, es, hg, hnd, hs, h => by
+    simp only [canonFlat, bind, Except.bind] at h
+    split at h
+    · cases h
+    · rename_i gs' hgs
+      split at h
+      · cases h
+      · rename_i xs' hxs
+        cases h
+        obtain ⟨hl, hsg⟩ := (TrsoAux.sh_prod_iff σ₀ gs).1 (hs _ (by simp))
+        obtain ⟨g1, g2⟩ := TrsoAux.sh_canonFlat_aux S σ₀ gs gs' ⟨hg.1.1, hg.2.1⟩ hnd.1 hsg hgs
+        obtain ⟨h1, h2⟩ := TrsoAux.sh_canonFlat_aux S σ₀ xs xs' ⟨hg.1.2, hg.2.2⟩ hnd.2
+          (fun x hx => hs x (by simp [hx])) hxs
+        refine ⟨?_, by simp only [List.length_cons, List.length_append]; omega⟩
+        intro x hx
+        rcases List.mem_append.1 hx with hx | hx
+        · exact g1 x hx
+        · exact h1 x hx
+  | .prob pop c p :: xs, es, hg, hnd, hs, h => by
+    simp only [canonFlat, bind, Except.bind] at h
+    split at h
+    · cases h
+    · rename_i x' hx'
+      split at h
+      · cases h
+      · rename_i xs' hxs
+        cases h
+        exact TrsoAux.sh_cons_step σ₀ _
+          (TrsoAux.sh_canon_aux S σ₀ _ x' ⟨hg.1.1, hg.2.1⟩ hnd.1 (hs _ (by simp)) hx').shape
+          (TrsoAux.sh_canonFlat_aux S σ₀ xs xs' ⟨hg.1.2, hg.2.2⟩ hnd.2 (fun x hx => hs x (by simp [hx])) hxs)
+  | .sum t r :: xs, es, hg, hnd, hs, h => by
+    simp only [canonFlat, bind, Except.bind] at h
+    split at h
+    · cases h
+    · rename_i x' hx'
+      split at h
+      · cases h
+      · rename_i xs' hxs
+        cases h
+        exact TrsoAux.sh_cons_step σ₀ _
+          (TrsoAux.sh_canon_aux S σ₀ _ x' ⟨hg.1.1, hg.2.1⟩ hnd.1 (hs _ (by simp)) hx').shape
+          (TrsoAux.sh_canonFlat_aux S σ₀ xs xs' ⟨hg.1.2, hg.2.2⟩ hnd.2 (fun x hx => hs x (by simp [hx])) hxs)
+  | .frac n d :: xs, es, hg, hnd, hs, h => by
+    simp only [canonFlat, bind, Except.bind] at h
+    split at h
+    · cases h
+    · rename_i x' hx'
+      split at h
+      · cases h
+      · rename_i xs' hxs
+        cases h
+        exact TrsoAux.sh_cons_step σ₀ _
+          (TrsoAux.sh_canon_aux S σ₀ _ x' ⟨hg.1.1, hg.2.1⟩ hnd.1 (hs _ (by simp)) hx').shape
+          (TrsoAux.sh_canonFlat_aux S σ₀ xs xs' ⟨hg.1.2, hg.2.2⟩ hnd.2 (fun x hx => hs x (by simp [hx])) hxs)
+  | .one :: _, _, _, _, hs, _ => (hs .one (by simp)).noOne.elim
+  | .zero :: _, _, hg, _, _, _ => hg.1.1.elim
+  | .q _ _ :: _, _, hg, _, _, _ => hg.1.1.elim
+end
+
 /-- **`canonicalize` preserves the shape invariant** -/
 theorem shape_canon (S : LeafSem card leaf) (σ₀ : Val) {e e' : Expr} (hg : Good S e) (hnd : SumND e)
-    (hs : Shape card leaf σ₀ e) (h : canon e = .ok e') : Shape card leaf σ₀ e' := by
-  sorry
+    (hs : Shape card leaf σ₀ e) (h : canon e = .ok e') : Shape card leaf σ₀ e' :=
+  (TrsoAux.sh_canon_aux S σ₀ e e' hg hnd hs h).shape
 
 theorem shape_canonicalize (S : LeafSem card leaf) (σ₀ : Val) {e e' : Expr} (hg : Good S e) (hnd : SumND e)
     (hs : Shape card leaf σ₀ e) (h : canonicalize e = .ok e') : Shape card leaf σ₀ e' :=
@@ -434,7 +589,15 @@ theorem shape_canonicalize (S : LeafSem card leaf) (σ₀ : Val) {e e' : Expr} (
 theorem canon_prod_isProd (S : LeafSem card leaf) (σ₀ : Val) {fs : List Expr} {e' : Expr} (hg : Good S (.prod fs))
     (hnd : SumND (.prod fs)) (hs : Shape card leaf σ₀ (.prod fs)) (h : canon (.prod fs) = .ok e') :
     ∃ gs, e' = .prod gs := by
-  sorry
+  simp only [canon, bind, Except.bind] at h
+  split at h
+  · cases h
+  · rename_i es hes; cases h
+    obtain ⟨hl, hsf⟩ := (TrsoAux.sh_prod_iff σ₀ fs).1 hs
+    obtain ⟨h1, h2⟩ := TrsoAux.sh_canonFlat_aux S σ₀ fs es ⟨hg.1, hg.2⟩ hnd hsf hes
+    obtain ⟨es', hes', ces⟩ := canonFlat_ok fs hg.1
+    rw [hes] at hes'; cases hes'
+    exact (TrsoAux.sh_prod_out σ₀ fs h1 ces (by omega)).1
 
 end Trso
 end Y0
